@@ -95,7 +95,7 @@ async def discover(host: str, port: int = GOODWE_UDP_PORT, timeout: int = 1, ret
                 logger.debug("Connected to inverter %s, S/N:%s.", i.model_name, i.serial_number)
                 return i
 
-        except InverterError as ex:
+        except (InverterError, UnicodeDecodeError) as ex:
             failures.append(ex)
 
     # Probe inverter specific protocols
